@@ -368,20 +368,6 @@ def Prog.run : Prog → Heap → Env → Heap × Env
   | .cmd c k, h, env => let (h1, env1) := runCmd c h env; k.run h1 env1
   | .read f, h, env => (f (env.map (see h))).run h env
 
-def Prog.append : Prog → Prog → Prog
-  | .done, q => q
-  | .cmd c k, q => .cmd c (k.append q)
-  | .read f, q => .read (fun v => (f v).append q)
-
-instance : Append Prog := ⟨Prog.append⟩
-
-def Prog.cmds : List Cmd → Prog
-  | [] => .done
-  | c :: r => .cmd c (Prog.cmds r)
-
-/-- several in-place effects on one target -/
-def Prog.acts (t : Nat) (as : List Act) : Prog := Prog.cmds (as.map (Cmd.act t))
-
 /-! ## in-place scripts: what the body of a method does to `self` after
     `new = self if inplace else self.copy()` -/
 
